@@ -76,9 +76,17 @@ package config
 //@   props C19
 //@   noframe
 //@   requires nw != nil && nw.logger != nil && e != nil && nw.namespaces != nil
+//@   requires forall k string :: has(nw.namespaces, k) ==> nw.namespaces[k] != nil
+
+//@ func GetParser
+//@   props C19
+//@   trusted
+//@   pure
+//@   ensures result1 == nil ==> result0 != nil
 
 //@ func (*NamespaceWatcher).readNamespaceFile
 //@   props C19
 //@   noframe
+//@   modifies rdconsumed(r)
 //@   requires nw != nil && nw.logger != nil
 //@   ensures[C19] result-describes-the-file: result != nil ==> fresh(result) && result.Name == source && (result.namespace == nil || fresh(result.namespace))
